@@ -64,7 +64,15 @@ def gen_pipeline(rng, idx, backends):
     specs = []
     pool = ["jw_first", "lev_sur", "exact_city_tf", "amount", "dl_sur", "jaro_first", "dist_fn", "name_cmp", "exact_dob", "km", "lev_dob"]
     rng.shuffle(pool)
-    chosen = pool[: rng.randint(2, 4)]
+    col_of = {"jw_first": "first_name", "jaro_first": "first_name", "name_cmp": "first_name", "lev_sur": "surname", "dl_sur": "surname",
+              "dist_fn": "surname", "exact_dob": "dob", "lev_dob": "dob"}
+    chosen, used = [], set()
+    for c in pool:                      # one comparison per input column (output column names must be unique)
+        if col_of.get(c, c) in used:
+            continue
+        used.add(col_of.get(c, c))
+        chosen.append(c)
+    chosen = chosen[: rng.randint(2, 4)]
     if use_fs:
         chosen = ["fs"] + [c for c in chosen if c not in ("jw_first", "lev_sur", "dl_sur", "jaro_first", "dist_fn", "name_cmp")][:2]
     if "sqlite" in backends and "km" in chosen and not _sqlite_has_trig():
@@ -236,6 +244,11 @@ def finite(x):
     return isinstance(x, (int, float)) and not isinstance(x, bool) and math.isfinite(x)
 
 
+def fold(x):
+    """NaN (pandas/Spark rendering of NULL doubles) -> None"""
+    return None if isinstance(x, float) and math.isnan(x) else x
+
+
 def compare(ctx: Ctx, case, ref, oth, backend):
     """returns (coq case term, python-side list of differences)"""
     d0, n0, l0, o0 = canon(ref)
@@ -249,7 +262,7 @@ def compare(ctx: Ctx, case, ref, oth, backend):
     for k in n0:
         if k not in n1:
             continue
-        a, b = n0[k], n1[k]
+        a, b = fold(n0[k]), fold(n1[k])
         if finite(a) and finite(b):
             fa, fb = Fraction(a), Fraction(b)
             pairs.append((fa, fb))
@@ -338,8 +351,12 @@ def correspondence(ctx: Ctx, backends):
             metas.append((case, b, diffs, stats))
             ctx.cov["numbers_compared"] = ctx.cov.get("numbers_compared", 0) + stats["numbers"]
             ctx.cov["pairs_compared"] = ctx.cov.get("pairs_compared", 0) + stats["pairs"]
-    bad, errs = ctx.eval_cases("C06_x", HEADER, terms, "run_case", shard=2, timeout=900)
-    ctx.obligation("X pipelines evaluated in Coq", not errs, "; ".join(errs)[:1500])
+    report(ctx, "C06_x", terms, metas)
+
+
+def report(ctx: Ctx, name, terms, metas):
+    bad, errs = ctx.eval_cases(name, HEADER, terms, "run_case", shard=2, timeout=900)
+    ctx.obligation(f"X pipelines evaluated in Coq ({name})", not errs, "; ".join(errs)[:1500])
     for k, (case, b, diffs, stats) in enumerate(metas):
         coq_bad = k in bad
         if bool(diffs) != coq_bad:
@@ -356,4 +373,4 @@ def correspondence(ctx: Ctx, backends):
         if dfirst[0] == "row":
             rep["records"] = records_of(case, dfirst[1])
         ctx.violation(f"pipeline {case['idx']} differs between duckdb and {b}: {str(dfirst)[:200]}", rep, feats)
-    ctx.obligation("X: every backend equals the DuckDB reference on every pipeline", not bad and not errs)
+    ctx.obligation(f"X: every backend equals the DuckDB reference on every pipeline ({name})", not bad and not errs)
